@@ -550,7 +550,7 @@ pub fn parse_summary(s: &[u8], problems: &mut Vec<String>) -> Result<DecSummary,
                 let n = u32le(s, p + 4) as usize;
                 need(4 + n)?;
                 if n == 0 {
-                    problems.push(format!("summary: property {} string with byte count 0 (no terminator)", id));
+                    // MS-OLEPS 2.5: a size of zero means no characters at all
                     (PropVal::Str(Vec::new()), 8)
                 } else {
                     let body = &s[p + 8..p + 8 + n];
